@@ -3,6 +3,8 @@
 #[derive(Clone, Copy, PartialEq, Eq, Hash, PartialOrd, Ord, Debug)]
 pub struct Uuid { hi: u64, lo: u64 }
 static mut NEXT: u128 = 1000;
+/// (native replay only) restart the fresh-id sequence
+pub fn verif_reset() { unsafe { NEXT = 1000 } }
 impl Uuid {
     pub fn new_v4() -> Self { unsafe { NEXT += 1; Uuid::from_u128(NEXT) } }
     pub const fn from_u128(v: u128) -> Self { Uuid { hi: (v >> 64) as u64, lo: v as u64 } }
